@@ -418,7 +418,7 @@ where
     fn outside_number(&mut self, token: &T) {
         let text = token.text();
         if !(text.chars().all(|c| !c.is_alphabetic()) && text.trim() != "."
-            || self.lang.is_linking(text))
+            || self.lang.is_linking(token.text_lowercase()))
         {
             self.tracker.sequence_breaker()
         };
